@@ -65,6 +65,17 @@ open Gen
 @[simp] theorem staleFwd_maxBuf (s : St) : (staleFwd s).maxBuf = s.maxBuf := by
   rfl
 
+@[simp] theorem ensureStreams_maxBuf (ids : List (BitVec 16)) (s : St) : ((ensureStreams s ids).1).maxBuf = s.maxBuf := by
+  induction ids generalizing s with
+  | nil => rfl
+  | cons id ids ih =>
+    simp only [ensureStreams]
+    split
+    · exact ih s
+    · split
+      · rw [ih]; simp
+      · simp
+
 @[simp] theorem fwdEntry_maxBuf (s : St) (e : BitVec 16 × BitVec 16) : (fwdEntry s e).maxBuf = s.maxBuf := by
   unfold fwdEntry; dsimp only; repeat' split
   all_goals first | rfl | simp
@@ -75,7 +86,7 @@ open Gen
   | cons e es ih => simp [ih]
 
 @[simp] theorem handleFwd_maxBuf (s : St) (c : TSN) (es : List (BitVec 16 × BitVec 16)) : (handleFwd s c es).maxBuf = s.maxBuf := by
-  unfold handleFwd; repeat' split
+  unfold handleFwd; dsimp only; repeat' split
   all_goals first | rfl | simp
 
 @[simp] theorem ifwdEntry_maxBuf (s : St) (e : BitVec 16 × Bool × BitVec 32) : (ifwdEntry s e).maxBuf = s.maxBuf := by
@@ -88,7 +99,7 @@ open Gen
   | cons e es ih => simp [ih]
 
 @[simp] theorem handleIFwd_maxBuf (s : St) (c : TSN) (es : List (BitVec 16 × Bool × BitVec 32)) : (handleIFwd s c es).maxBuf = s.maxBuf := by
-  unfold handleIFwd; repeat' split
+  unfold handleIFwd; dsimp only; repeat' split
   all_goals first | rfl | simp
 
 @[simp] theorem handleChunk_maxBuf (s : St) (c : InChunk) : (handleChunk s c).maxBuf = s.maxBuf := by
@@ -198,6 +209,17 @@ open Gen
 @[simp] theorem staleFwd_maxEntries (s : St) : (staleFwd s).maxEntries = s.maxEntries := by
   rfl
 
+@[simp] theorem ensureStreams_maxEntries (ids : List (BitVec 16)) (s : St) : ((ensureStreams s ids).1).maxEntries = s.maxEntries := by
+  induction ids generalizing s with
+  | nil => rfl
+  | cons id ids ih =>
+    simp only [ensureStreams]
+    split
+    · exact ih s
+    · split
+      · rw [ih]; simp
+      · simp
+
 @[simp] theorem fwdEntry_maxEntries (s : St) (e : BitVec 16 × BitVec 16) : (fwdEntry s e).maxEntries = s.maxEntries := by
   unfold fwdEntry; dsimp only; repeat' split
   all_goals first | rfl | simp
@@ -208,7 +230,7 @@ open Gen
   | cons e es ih => simp [ih]
 
 @[simp] theorem handleFwd_maxEntries (s : St) (c : TSN) (es : List (BitVec 16 × BitVec 16)) : (handleFwd s c es).maxEntries = s.maxEntries := by
-  unfold handleFwd; repeat' split
+  unfold handleFwd; dsimp only; repeat' split
   all_goals first | rfl | simp
 
 @[simp] theorem ifwdEntry_maxEntries (s : St) (e : BitVec 16 × Bool × BitVec 32) : (ifwdEntry s e).maxEntries = s.maxEntries := by
@@ -221,7 +243,7 @@ open Gen
   | cons e es ih => simp [ih]
 
 @[simp] theorem handleIFwd_maxEntries (s : St) (c : TSN) (es : List (BitVec 16 × Bool × BitVec 32)) : (handleIFwd s c es).maxEntries = s.maxEntries := by
-  unfold handleIFwd; repeat' split
+  unfold handleIFwd; dsimp only; repeat' split
   all_goals first | rfl | simp
 
 @[simp] theorem handleChunk_maxEntries (s : St) (c : InChunk) : (handleChunk s c).maxEntries = s.maxEntries := by
@@ -331,6 +353,17 @@ open Gen
 @[simp] theorem staleFwd_il (s : St) : (staleFwd s).il = s.il := by
   rfl
 
+@[simp] theorem ensureStreams_il (ids : List (BitVec 16)) (s : St) : ((ensureStreams s ids).1).il = s.il := by
+  induction ids generalizing s with
+  | nil => rfl
+  | cons id ids ih =>
+    simp only [ensureStreams]
+    split
+    · exact ih s
+    · split
+      · rw [ih]; simp
+      · simp
+
 @[simp] theorem fwdEntry_il (s : St) (e : BitVec 16 × BitVec 16) : (fwdEntry s e).il = s.il := by
   unfold fwdEntry; dsimp only; repeat' split
   all_goals first | rfl | simp
@@ -341,7 +374,7 @@ open Gen
   | cons e es ih => simp [ih]
 
 @[simp] theorem handleFwd_il (s : St) (c : TSN) (es : List (BitVec 16 × BitVec 16)) : (handleFwd s c es).il = s.il := by
-  unfold handleFwd; repeat' split
+  unfold handleFwd; dsimp only; repeat' split
   all_goals first | rfl | simp
 
 @[simp] theorem ifwdEntry_il (s : St) (e : BitVec 16 × Bool × BitVec 32) : (ifwdEntry s e).il = s.il := by
@@ -354,7 +387,7 @@ open Gen
   | cons e es ih => simp [ih]
 
 @[simp] theorem handleIFwd_il (s : St) (c : TSN) (es : List (BitVec 16 × Bool × BitVec 32)) : (handleIFwd s c es).il = s.il := by
-  unfold handleIFwd; repeat' split
+  unfold handleIFwd; dsimp only; repeat' split
   all_goals first | rfl | simp
 
 @[simp] theorem handleChunk_il (s : St) (c : InChunk) : (handleChunk s c).il = s.il := by
@@ -464,6 +497,17 @@ open Gen
 @[simp] theorem staleFwd_useFwd (s : St) : (staleFwd s).useFwd = s.useFwd := by
   rfl
 
+@[simp] theorem ensureStreams_useFwd (ids : List (BitVec 16)) (s : St) : ((ensureStreams s ids).1).useFwd = s.useFwd := by
+  induction ids generalizing s with
+  | nil => rfl
+  | cons id ids ih =>
+    simp only [ensureStreams]
+    split
+    · exact ih s
+    · split
+      · rw [ih]; simp
+      · simp
+
 @[simp] theorem fwdEntry_useFwd (s : St) (e : BitVec 16 × BitVec 16) : (fwdEntry s e).useFwd = s.useFwd := by
   unfold fwdEntry; dsimp only; repeat' split
   all_goals first | rfl | simp
@@ -474,7 +518,7 @@ open Gen
   | cons e es ih => simp [ih]
 
 @[simp] theorem handleFwd_useFwd (s : St) (c : TSN) (es : List (BitVec 16 × BitVec 16)) : (handleFwd s c es).useFwd = s.useFwd := by
-  unfold handleFwd; repeat' split
+  unfold handleFwd; dsimp only; repeat' split
   all_goals first | rfl | simp
 
 @[simp] theorem ifwdEntry_useFwd (s : St) (e : BitVec 16 × Bool × BitVec 32) : (ifwdEntry s e).useFwd = s.useFwd := by
@@ -487,7 +531,7 @@ open Gen
   | cons e es ih => simp [ih]
 
 @[simp] theorem handleIFwd_useFwd (s : St) (c : TSN) (es : List (BitVec 16 × Bool × BitVec 32)) : (handleIFwd s c es).useFwd = s.useFwd := by
-  unfold handleIFwd; repeat' split
+  unfold handleIFwd; dsimp only; repeat' split
   all_goals first | rfl | simp
 
 @[simp] theorem handleChunk_useFwd (s : St) (c : InChunk) : (handleChunk s c).useFwd = s.useFwd := by
@@ -597,6 +641,17 @@ open Gen
 @[simp] theorem staleFwd_useIFwd (s : St) : (staleFwd s).useIFwd = s.useIFwd := by
   rfl
 
+@[simp] theorem ensureStreams_useIFwd (ids : List (BitVec 16)) (s : St) : ((ensureStreams s ids).1).useIFwd = s.useIFwd := by
+  induction ids generalizing s with
+  | nil => rfl
+  | cons id ids ih =>
+    simp only [ensureStreams]
+    split
+    · exact ih s
+    · split
+      · rw [ih]; simp
+      · simp
+
 @[simp] theorem fwdEntry_useIFwd (s : St) (e : BitVec 16 × BitVec 16) : (fwdEntry s e).useIFwd = s.useIFwd := by
   unfold fwdEntry; dsimp only; repeat' split
   all_goals first | rfl | simp
@@ -607,7 +662,7 @@ open Gen
   | cons e es ih => simp [ih]
 
 @[simp] theorem handleFwd_useIFwd (s : St) (c : TSN) (es : List (BitVec 16 × BitVec 16)) : (handleFwd s c es).useIFwd = s.useIFwd := by
-  unfold handleFwd; repeat' split
+  unfold handleFwd; dsimp only; repeat' split
   all_goals first | rfl | simp
 
 @[simp] theorem ifwdEntry_useIFwd (s : St) (e : BitVec 16 × Bool × BitVec 32) : (ifwdEntry s e).useIFwd = s.useIFwd := by
@@ -620,7 +675,7 @@ open Gen
   | cons e es ih => simp [ih]
 
 @[simp] theorem handleIFwd_useIFwd (s : St) (c : TSN) (es : List (BitVec 16 × Bool × BitVec 32)) : (handleIFwd s c es).useIFwd = s.useIFwd := by
-  unfold handleIFwd; repeat' split
+  unfold handleIFwd; dsimp only; repeat' split
   all_goals first | rfl | simp
 
 @[simp] theorem handleChunk_useIFwd (s : St) (c : InChunk) : (handleChunk s c).useIFwd = s.useIFwd := by
@@ -730,6 +785,17 @@ open Gen
 @[simp] theorem staleFwd_ackMode (s : St) : (staleFwd s).ackMode = s.ackMode := by
   rfl
 
+@[simp] theorem ensureStreams_ackMode (ids : List (BitVec 16)) (s : St) : ((ensureStreams s ids).1).ackMode = s.ackMode := by
+  induction ids generalizing s with
+  | nil => rfl
+  | cons id ids ih =>
+    simp only [ensureStreams]
+    split
+    · exact ih s
+    · split
+      · rw [ih]; simp
+      · simp
+
 @[simp] theorem fwdEntry_ackMode (s : St) (e : BitVec 16 × BitVec 16) : (fwdEntry s e).ackMode = s.ackMode := by
   unfold fwdEntry; dsimp only; repeat' split
   all_goals first | rfl | simp
@@ -740,7 +806,7 @@ open Gen
   | cons e es ih => simp [ih]
 
 @[simp] theorem handleFwd_ackMode (s : St) (c : TSN) (es : List (BitVec 16 × BitVec 16)) : (handleFwd s c es).ackMode = s.ackMode := by
-  unfold handleFwd; repeat' split
+  unfold handleFwd; dsimp only; repeat' split
   all_goals first | rfl | simp
 
 @[simp] theorem ifwdEntry_ackMode (s : St) (e : BitVec 16 × Bool × BitVec 32) : (ifwdEntry s e).ackMode = s.ackMode := by
@@ -753,7 +819,7 @@ open Gen
   | cons e es ih => simp [ih]
 
 @[simp] theorem handleIFwd_ackMode (s : St) (c : TSN) (es : List (BitVec 16 × Bool × BitVec 32)) : (handleIFwd s c es).ackMode = s.ackMode := by
-  unfold handleIFwd; repeat' split
+  unfold handleIFwd; dsimp only; repeat' split
   all_goals first | rfl | simp
 
 @[simp] theorem handleChunk_ackMode (s : St) (c : InChunk) : (handleChunk s c).ackMode = s.ackMode := by
@@ -863,6 +929,17 @@ open Gen
 @[simp] theorem staleFwd_scp (s : St) : (staleFwd s).scp = s.scp := by
   rfl
 
+@[simp] theorem ensureStreams_scp (ids : List (BitVec 16)) (s : St) : ((ensureStreams s ids).1).scp = s.scp := by
+  induction ids generalizing s with
+  | nil => rfl
+  | cons id ids ih =>
+    simp only [ensureStreams]
+    split
+    · exact ih s
+    · split
+      · rw [ih]; simp
+      · simp
+
 @[simp] theorem fwdEntry_scp (s : St) (e : BitVec 16 × BitVec 16) : (fwdEntry s e).scp = s.scp := by
   unfold fwdEntry; dsimp only; repeat' split
   all_goals first | rfl | simp
@@ -873,7 +950,7 @@ open Gen
   | cons e es ih => simp [ih]
 
 @[simp] theorem handleFwd_scp (s : St) (c : TSN) (es : List (BitVec 16 × BitVec 16)) : (handleFwd s c es).scp = s.scp := by
-  unfold handleFwd; repeat' split
+  unfold handleFwd; dsimp only; repeat' split
   all_goals first | rfl | simp
 
 @[simp] theorem ifwdEntry_scp (s : St) (e : BitVec 16 × Bool × BitVec 32) : (ifwdEntry s e).scp = s.scp := by
@@ -886,7 +963,7 @@ open Gen
   | cons e es ih => simp [ih]
 
 @[simp] theorem handleIFwd_scp (s : St) (c : TSN) (es : List (BitVec 16 × Bool × BitVec 32)) : (handleIFwd s c es).scp = s.scp := by
-  unfold handleIFwd; repeat' split
+  unfold handleIFwd; dsimp only; repeat' split
   all_goals first | rfl | simp
 
 @[simp] theorem handleChunk_scp (s : St) (c : InChunk) : (handleChunk s c).scp = s.scp := by
